@@ -47,6 +47,16 @@ def result_type(opk, l, r):
     return common(l, r)
 
 
+def operand_types(opk, l, r):
+    """types of the two operands after the conversions the operator applies (6.5.5-6.5.14)"""
+    if opk in (5, 6):
+        return promote(l), promote(r)
+    if opk in (16, 17):
+        return l, r
+    c = common(l, r)
+    return c, c
+
+
 def pairs(tier, seed, full_for):
     """type pairs: quick = a covering sample (every type on each side with a small, a same-size and a large partner), thorough = all"""
     n = len(TYPES)
@@ -72,7 +82,11 @@ def expr_instances(tier, seed, mode, fam, ops=None, full=False, safety=False):
             if (l == 13 or r == 13) and opk in (3, 4) and mode != 'ONLY_TYPE' and tier == 'quick':
                 continue      # double-precision adders: minutes per instance on SAT, thorough tier only (float + - stay in quick)      # float * and /: SAT/SMT do not finish within the cap (measured); operand routing is covered by + and -
             variants = [({}, ['sat'], False, '')]
-            if heavy and mode != 'ONLY_TYPE':
+            if heavy and mode == 'ONLY_RT' and opk == 0:
+                variants = [({}, ['z3s', 'sat'], False, '')]      # run-time side only: z3 decides the full range of a multiplication in about a second
+            elif heavy and mode == 'ONLY_RT':
+                variants = [({'SMALLOPS': 10 if tier == 'quick' else 14}, ['sat'], False, '.small'), ({}, ['z3s'], True, '.full')]
+            elif heavy and mode != 'ONLY_TYPE':
                 # 64-bit multiplier/divider equivalence: SAT back ends do not finish; z3 (+ --slice-formula, which also avoids an smt2_conv
                 # invariant failure on eval.c's constant union) usually answers on the full range in seconds.  A small-range SAT variant
                 # always runs, the full-range z3 variant is "optional" (no verdict within the cap is reported, not an error).
@@ -82,9 +96,10 @@ def expr_instances(tier, seed, mode, fam, ops=None, full=False, safety=False):
                     variants = [({'SMALLOPS': 10 if tier == 'quick' else 14}, ['z3s'], True, '.small'), ({}, ['z3s'], True, '.full')]
             for defs_extra, backends, optional, suffix in variants:
                 L.append(Inst('%s.%s.%s.%s%s' % (fam, opn, TYPES[l], TYPES[r], suffix), 'h_expr.c',
-                              dict({'LT': l, 'RT': r, 'OPK': opk, 'WANT': result_type(opk, l, r), mode: None}, **defs_extra),
+                              dict({'LT': l, 'RT': r, 'OPK': opk, 'WANT': result_type(opk, l, r), 'LCONV': operand_types(opk, l, r)[0],
+                                    'RCONV': operand_types(opk, l, r)[1], mode: None}, **defs_extra),
                               units=['expr', 'eval', 'type', 'util'], overrides=['fatal', 'xmalloc', 'error'], native_units=NATIVE, unwind=4,
-                              unwindset=['il_run.0:24', 'il_is_stop.0:14'], family=fam + '.' + opn, backends=backends, safety=safety, optional=optional, witness=not (heavy and mode != 'ONLY_TYPE' and (optional or opk == 0)),
+                              unwindset=['il_run.0:24', 'il_is_stop.0:14'], family=fam + '.' + opn, backends=backends, safety=safety, optional=optional, witness=not (heavy and mode == 'ONLY_FOLD' and (optional or opk == 0)),
                               timeout=(60 if optional else 240) if tier == 'quick' else 900, mem_gb=8 if tier == 'quick' else 16,
                               bound={'operator': opn, 'left': TYPES[l], 'right': TYPES[r],
                                      'values': ('|x| < 2^%d' % defs_extra['SMALLOPS']) if defs_extra else 'all (symbolic), minus undefined behaviour'}))
